@@ -320,6 +320,18 @@ def canon_trace(spec, nfin, k, max_actions=2000000):
                         o.finalize(nfin_arg)       # the same call again: a no-op
             except Exception as e:
                 lines.append("B finalize-" + exc_name(e))
+            if company and count == 3:
+                # an object that is created and started WHILE the object under test is running (the siblings above were
+                # started before it): a different size, same class and options
+                try:
+                    b2 = _bigger(spec)
+                    if b2 is not None:
+                        late_sibling = parse_spec(b2)()
+                        next(late_sibling)
+                        company.append(late_sibling)
+                        company[-1], company[-2] = company[-2], company[-1]    # the twin stays the one that is resumed
+                except Exception:
+                    pass
             if company and count % 7 == 0 and count < 200:
                 try:
                     next(company[-1])      # the twin is resumed while the object under test runs
